@@ -207,13 +207,13 @@ ADDED = {
     "C07": "forbidden tubes opened between the two tubes of an exec pair, commands sent seconds to hours after their tubes were opened, the same exec request twice at the same moment, a slow user lookup, overlapping logins with one delegate key under yields; the started command (text, shell flag, time) is taken from the server's own log entry; oracle on the transport layer's trusted-key set after the last grant of a key was consumed",
     "C08": "in a sixth of the runs the muxers run on a real transport session; sequence space of fresh tubes moved close to and across the 32-bit frame-number wrap; schedule perturbation in the tube code and a socket that holds writers up (bounded in time like the other faults); reassembly core with duplicate floods parked behind a gap",
     "C09": "yields in the muxer, messages near and over the size limits (the simulated endpoints enforce the limits of what they stand for), a muxer that stops by itself is a violation, real transport under the muxers in an eighth of the runs",
-    "C10": "the attacker's own, correctly authenticated handshake messages with altered length prefixes and with certificate blobs of its own making; handshakes abandoned after the ClientAck followed later by an honest client from the same address; host patterns with literal text on both sides of the wildcard and names on their edges; sources the server cannot reach (its answers fail with an error); a session closed in the middle of the junk",
+    "C10": "the multi-host server is built by the REAL hopserver.NewHopServer in 3 of 4 runs (VerifListen seam inserted by the build step); the attacker's own, correctly authenticated handshake messages with altered length prefixes and with certificate blobs of its own making; handshakes abandoned after the ClientAck followed later by an honest client from the same address; host patterns with literal text on both sides of the wildcard and names on their edges; sources the server cannot reach (its answers fail with an error); a session closed in the middle of the junk",
     "C11": "the honest side closes every second Byzantine tube; a well-formed flood (unread unreliable tube, 990-2500 datagrams, FIN); the honest background transfer runs under loss, socket stalls and schedule perturbation",
     "C14": "send counters moved close to and across 2^32, 2^31, 2^48, 2^63 (the state a long-lived session reaches by itself); empty messages",
     "C15": "truncated copies and port-only / host-only moves, receive queues of 1-4 packets with a slow application, several writers per connection with blocking socket writes",
     "C16": "large writes, real transport under the muxers in an eighth of the runs, at closure the bytes a tube holds for its reader must all be returned",
     "C17": "short-buffer reads with a byte-level connection model, long pauses (operations meeting a connection whose handshake failed), handshakes bounded by deadline only or by both, a server that falls silent after its first answer, socket Close reporting an error, harness Close calls bounded and judged",
-    "C19": "IPv6 client addresses, acknowledgements from the same address while its handshake is pending (altered / zero / foreign-key cookie, random bytes), acknowledgement under a KEM key differing from the cookie's in a few bytes",
+    "C19": "multi-host servers built by the real hopserver.NewHopServer, hidden mode configured with names that match no host block, IPv6 client addresses, acknowledgements from the same address while its handshake is pending (altered / zero / foreign-key cookie, random bytes), acknowledgement under a KEM key differing from the cookie's in a few bytes",
 }
 for _p, _t in ADDED.items():
     TEXT[_p]["level_text"] += ". Added during the seeded-change waves: " + _t
